@@ -228,7 +228,7 @@ def run_check(pid, tier="quick", seed=0, replay=None):
                 rp = core.write_replay(pid, "crash-%s-%s" % (eng.name, core.sha(culprit)[:8]),
                                        "# engine=%s\n# executor exit %d: %s\n%s\n# --- report ---\n%s"
                                        % (eng.name, res.exec_rc, first[0] if first else "", culprit,
-                                          "\n".join("# " + l for l in report.split("\n")[-40:])))
+                                          "\n".join("# " + l for l in [x for x in report.split("\n") if "Shadow" not in x and not x.strip().startswith("0x") and "=>0x" not in x][:60])))
                 violations.append((rp, "", "executor died (sanitizer/crash) exit=%d" % res.exec_rc))
         # --- correspondence differences (model != impl, oracle silent)
         if res.diffs:
